@@ -14,6 +14,11 @@ R4  LHS: cut points linspace(0, 1, N+1); one draw per stratum a + u*(b-a) with
     stratified column indexed by a permutation of range(N); the default
     criterion uses this classic construction; unit-affine scaling.
 R5  builders take one level list per declared parameter.
+R6  the unit samples of LHS and Halton are mapped to the bounds by
+    lo + w*(hi-lo) with the bounds of the same column, for every lo <= hi
+    (absolute values resolved by the signs the bounds allow; the rule is the
+    one C08 uses for containment, re-derived here because a wrong span also
+    moves the strata and the radical-inverse law).
 """
 import ast
 
@@ -604,7 +609,8 @@ def r5_arity(ctx, repo):
 
 def run(ctx):
     for rid, doc in (("R1", "random generator count"), ("R2", "uniform grid levels and Cartesian product"), ("R3", "Halton bases, burn-in, recurrence, wiring"),
-                     ("R4", "LHS strata, stratum draw, independent permutations, default criterion"), ("R5", "one coordinate per declared parameter")):
+                     ("R4", "LHS strata, stratum draw, independent permutations, default criterion"), ("R5", "one coordinate per declared parameter"),
+                     ("R6", "unit samples scaled by lo + w*(hi-lo) for every lo <= hi")):
         ctx.rule(rid, doc)
     ctx.axiom("np.linspace(0,1,k+1) are the k+1 equidistant cut points; RandomState.rand in [0,1); RandomState.permutation(range(n)) is a permutation; itertools.product is the full Cartesian product")
     ctx.assume("array contents as numeric facts are not decided; the optimised LHS variants (center/maximin/correlation/lhsmu) are outside the claim")
@@ -613,3 +619,5 @@ def run(ctx):
     r3_halton(ctx, ctx.repo)
     r4_lhs(ctx, ctx.repo)
     r5_arity(ctx, ctx.repo)
+    from .c08 import unit_affine_scaling
+    unit_affine_scaling(ctx, ctx.repo, rid="R6")
